@@ -34,6 +34,10 @@ def run(ctx: Context) -> None:
     ctx.rule('R09.5', "grid clip masks carry copies of the coordinate variables; Arakawa masks are built for all four grid kinds", floor=4)
     ctx.rule('R09.6', "every connectivity table the topology can supply is carried over: unconditionally for face-node, under exactly its own validity test (and the presence of the edge table for tables involving edges) for the others, and written with the mesh variable", floor=8)
     ctx.rule('R09.7', "the reopened result is read with the same dimension discovery (shared with C10 R10.5) and re-indexing never writes into the clip mask or the input tables", floor=6)
+    ctx.rule('R09.8', "a grid dataset can be clipped whether its coordinate variables are xarray coordinates or plain variables: every variable is masked with the values of the mask only and written under its own name (facts shared with C08 R08.1 / R08.2)", floor=14)
+    from . import c08 as _c08
+    from .common import share_obligations as _share
+    _share(ctx, _c08, {'R08.1', 'R08.2'}, 'R09.8')
     ctx.assume("NOT decided: that the saved file reopens as the same convention (needs the file)")
     ctx.assume("xarray/netCDF apply encoding dtype and _FillValue on write")
 
